@@ -247,4 +247,4 @@ def check(run):
     run.guarded('CACHEINV', rule_cacheinv)
     run.guarded('DOM', rule_dom)
     run.guarded('HALFOPEN', rule_halfopen)
-    run.guarded('PRED', lambda r: rule_pred(r, floor=10))
+    run.guarded('PRED', lambda r: rule_pred(r, floor=2, only=('mulgrid.block_name_containing_point', 'mulgrid.block_contains_point')))
